@@ -252,7 +252,10 @@ func handlePayload(h *Handler, errResp errorResponder, p dataPayload, e xmlstrea
 	// Decode into scratch space first: a refused packet must leave neither
 	// partial data in the read buffer nor a gap in the sequence numbers.
 	decoded, err := io.ReadAll(base64.NewDecoder(base64.StdEncoding, bytes.NewReader(p.Data)))
-	if errors.As(err, &inputErr) {
+	// Data that ends in the middle of a base64 group is reported as an
+	// unexpected EOF, not as corrupt input: it is just as undecodable, and no
+	// reason to end the session.
+	if errors.As(err, &inputErr) || errors.Is(err, io.ErrUnexpectedEOF) {
 		_, err := xmlstream.Copy(e, errResp.Error(stanza.Error{
 			Type:      stanza.Cancel,
 			Condition: stanza.BadRequest,
